@@ -163,7 +163,80 @@ class SplitAnd(ast.NodeTransformer):
         return n
 
 
-TRANSFORMS = {"T1": RenameLocals, "T2": SwapCommutative, "T3": InsertLogging, "T4": ExpandAug, "T5": InvertIfElse, "T6": TempForReturn, "T7": SplitAnd}
+class AnnotateAssigns(ast.NodeTransformer):
+    """T8: `x = v` -> `x: object = v` for plain-name targets inside functions (type hints being added)."""
+
+    def __init__(self):
+        self.depth = 0
+
+    def visit_FunctionDef(self, n):
+        self.depth += 1
+        declared = {nm for x in ast.walk(n) if isinstance(x, (ast.Global, ast.Nonlocal)) for nm in x.names}
+        self.declared = getattr(self, "declared", set()) | declared
+        self.generic_visit(n)
+        self.depth -= 1
+        return n
+
+    visit_AsyncFunctionDef = visit_FunctionDef
+
+    def visit_Assign(self, n):
+        if self.depth and len(n.targets) == 1 and isinstance(n.targets[0], ast.Name) and n.targets[0].id not in getattr(self, "declared", set()):
+            return ast.copy_location(ast.AnnAssign(target=n.targets[0], annotation=ast.Name(id="object", ctx=ast.Load()), value=n.value, simple=1), n)
+        return n
+
+
+def _ends_in_jump(stmts):
+    if not stmts:
+        return False
+    last = stmts[-1]
+    if isinstance(last, (ast.Return, ast.Raise, ast.Continue, ast.Break)):
+        return True
+    return isinstance(last, ast.If) and bool(last.orelse) and _ends_in_jump(last.body) and _ends_in_jump(last.orelse)
+
+
+class DropElseAfterJump(ast.NodeTransformer):
+    """T9: `if c: A(jumps) else: B`  ->  `if c: A(jumps)` followed by B (pylint no-else-return / no-else-raise / no-else-continue)."""
+
+    def _fix(self, body):
+        out = []
+        for st in body:
+            if isinstance(st, ast.If) and st.orelse and _ends_in_jump(st.body) and not (len(st.orelse) == 1 and isinstance(st.orelse[0], ast.If) and st.orelse[0].orelse and False):
+                rest, st.orelse = st.orelse, []
+                out.append(st)
+                out.extend(self._fix(rest))
+            else:
+                out.append(st)
+        return out
+
+    def generic_visit(self, node):
+        super().generic_visit(node)
+        for f in ("body", "orelse", "finalbody"):
+            b = getattr(node, f, None)
+            if isinstance(b, list) and b and isinstance(b[0], ast.stmt):
+                setattr(node, f, self._fix(b))
+        return node
+
+
+class AddElseAfterJump(ast.NodeTransformer):
+    """T10: guard clause `if c: A(jumps)` + rest of the block  ->  `if c: A(jumps) else: rest` (the opposite of T9)."""
+
+    def _fix(self, body):
+        for i, st in enumerate(body):
+            if isinstance(st, ast.If) and not st.orelse and _ends_in_jump(st.body) and i + 1 < len(body):
+                st.orelse = self._fix(body[i + 1:])
+                return body[: i + 1]
+        return body
+
+    def generic_visit(self, node):
+        super().generic_visit(node)
+        for f in ("body", "orelse", "finalbody"):
+            b = getattr(node, f, None)
+            if isinstance(b, list) and b and isinstance(b[0], ast.stmt):
+                setattr(node, f, self._fix(b))
+        return node
+
+
+TRANSFORMS = {"T1": RenameLocals, "T2": SwapCommutative, "T3": InsertLogging, "T4": ExpandAug, "T5": InvertIfElse, "T6": TempForReturn, "T7": SplitAnd, "T8": AnnotateAssigns, "T9": DropElseAfterJump, "T10": AddElseAfterJump}
 
 
 def transform(text: str, tname: str) -> str | None:
